@@ -16,12 +16,13 @@ use zkryptium::schemes::generics::{BlindSignature, Commitment, PoKSignature, Sig
 use zkryptium::utils::message::bbsplus_message::BBSplusMessage;
 
 mod families;
+mod props;
 
 pub type Sha = Bls12381Sha256;
 pub type Shake = Bls12381Shake256;
 
-pub fn guard<F: FnOnce() -> String + panic::UnwindSafe>(f: F) -> String {
-    match panic::catch_unwind(f) {
+pub fn guard<F: FnOnce() -> String>(f: F) -> String {
+    match panic::catch_unwind(panic::AssertUnwindSafe(f)) {
         Ok(s) => s,
         Err(e) => {
             let msg = if let Some(s) = e.downcast_ref::<&str>() {
